@@ -102,25 +102,12 @@ def oracle(parts, outcome, obs):
     flags = "".join(opts.get("i", "").split("+"))
     cols, width = columns(flags)
     want_header = " ".join(n.rjust(w) for g, n, w in header_cols() if not g or GROUP_LETTER[g] in flags) + " LC"
-    # contents: the W cell of the last frame is the wake class of the aircraft's identification squitter (blank otherwise),
-    # the callsign cell its callsign -- every aircraft has at most one DF17 identification frame in these cases
-    ident = {}
-    for t, lines in pyspec.case_segments(parts):
-        for ln in lines:
-            f = pyspec.frame_of_line(ln)
-            if f and f != "zero" and f[0] == 17 and 1 <= getbits(f[2], 112, 33, 37) <= 4:
-                ident[f[1]] = (getbits(f[2], 112, 33, 37), getbits(f[2], 112, 38, 40))
+    # contents of the last frame: wake class, callsign and squawk cells against the frames of the input
     all_frames = frames_of(obs)
     if all_frames and len(all_frames[-1]) >= 3 and all_frames[-1][0] == want_header:
-        for line in rows_of_frame(all_frames[-1]):
-            try:
-                a = int(line[:6], 16)
-            except ValueError:
-                continue
-            tc, ca = ident.get(a, (0, 0))
-            want_w = {1: "L", 2: "S", 3: "M", 4: "H", 5: "J", 7: "R"}.get(ca, " ") if tc == 4 else " "
-            if len(line) == len(all_frames[-1][0]) and cell(line, cols, "W") .strip(" ") != want_w.strip(" "):
-                return "last frame: aircraft %06X (category %d.%d) shows wake class %r, expected %r" % (a, tc, ca, cell(line, cols, "W"), want_w)
+        bad = check_last_frame_cells(parts, obs, flags)
+        if bad:
+            return bad
     for k, fr in enumerate(all_frames):
         if len(fr) < 3:
             return "frame %d too short" % k
